@@ -22,88 +22,133 @@ structure Benign (c : Conn) (m : Msg) : Prop where
 def echoes (c : Conn) (m : Msg) : Bool :=
   m.mtype == mHeartbeat && c.testReqId.isSome && (m.get? tTestReqID).isSome
 
-theorem finalized_ctl (env : Env) (c : Conn) (m : Msg) :
+theorem not_promoted_of_ne {c : Conn} (h : c.state ≠ st_RESENDREQ_AWAITING) : promoted c = false := by
+  simp [promoted, h]
+
+theorem active_not_promoted {c : Conn} (ha : c.state = st_ACTIVE) : promoted c = false :=
+  not_promoted_of_ne (by rw [ha]; decide)
+
+/-- `_finalize_message` when it does not end a resend wait: only the counter, `lastTime` and the journal move -/
+theorem finalized_ctl (env : Env) (c : Conn) (m : Msg) (hnp : promoted c = false) :
     (finalized env c m).1.state = c.state ∧ (finalized env c m).1.sock = c.sock ∧
     (finalized env c m).1.hb = c.hb ∧ (finalized env c m).1.testReqId = c.testReqId ∧
     (c.state = st_ACTIVE → (finalized env c m).1.lastTime = env.now) ∧ NoDisc (finalized env c m).2 ∧
     writes (finalized env c m).2 = [] := by
   unfold finalized
   cases c.journal.persist .inbound c.sess.nextIn m <;>
-    simp +contextual [NoDisc, isDisc, writes, st_ACTIVE, st_DISCONNECTED_BROKEN_CONN]
+    simp +contextual [hnp, NoDisc, isDisc, writes, st_ACTIVE, st_DISCONNECTED_BROKEN_CONN]
 
 /-- on a connection the dispatch has just disconnected `_finalize_message` leaves `lastTime` alone (fix 5623bd4) -/
 theorem finalized_lastTime_down (env : Env) (c : Conn) (m : Msg) (hd : c.state = st_DISCONNECTED_BROKEN_CONN) :
     (finalized env c m).1.lastTime = c.lastTime := by
+  have hnp : promoted c = false := not_promoted_of_ne (by rw [hd]; decide)
   unfold finalized
-  cases c.journal.persist .inbound c.sess.nextIn m <;> simp [hd]
+  cases c.journal.persist .inbound c.sess.nextIn m <;> simp [hd, hnp]
 
-/-- a benign frame on a logged-on connection: still logged on, `lastTime = now`, the outstanding id is
-cleared exactly by an echo, nothing is torn down, and the only frame possibly written is the Heartbeat
-answering an inbound TestRequest. -/
+/-- logged on in the wide sense: any state from LOGON_INITIAL_RECV upwards – ACTIVE, RESENDREQ_AWAITING,
+RESENDREQ_HANDLING, RECV_SEQNUM_TOO_HIGH … –, transport up, interval `h`, resend watermark consistent -/
+structure On (h : Int) (c : Conn) : Prop where
+  state : 8 ≤ c.state
+  sock : c.sock = true
+  hb : c.hb = h
+  watermark : WatermarkOk c
+
+theorem Up.on {h : Int} {c : Conn} (hu : Up h c) : On h c :=
+  ⟨active_ge8 hu.active, hu.sock, hu.hb, active_watermark hu.active⟩
+
+/-- `_finalize_message` on a logged-on connection (wide sense): still logged on – RESENDREQ_AWAITING may
+turn into ACTIVE, nothing else changes state –, `lastTime = now`, id untouched, no teardown, no frame -/
+theorem finalized_on (env : Env) (h : Int) (c : Conn) (m : Msg) (ho : On h c) :
+    On h (finalized env c m).1 ∧ (finalized env c m).1.lastTime = env.now ∧
+    (finalized env c m).1.testReqId = c.testReqId ∧ NoDisc (finalized env c m).2 ∧
+    writes (finalized env c m).2 = [] ∧
+    ((finalized env c m).1.state = c.state ∨ (finalized env c m).1.state = st_ACTIVE) := by
+  have h8 := ho.state
+  have n3 : ¬ (c.state ≤ 3) := by omega
+  unfold finalized
+  by_cases hp : promoted c = true
+  · cases c.journal.persist .inbound c.sess.nextIn m <;>
+      simp [hp, NoDisc, isDisc, writes, st_ACTIVE, st_DISCONNECTED_BROKEN_CONN] <;>
+      exact ⟨(by show (8 : Nat) ≤ 17; decide), ho.sock, ho.hb,
+        fun hq => absurd (show (17 : Nat) = st_RESENDREQ_AWAITING from hq) (by decide)⟩
+  · have hp' : promoted c = false := by simpa using hp
+    have hw := ho.watermark
+    cases c.journal.persist .inbound c.sess.nextIn m <;>
+      simp [hp', NoDisc, isDisc, writes, st_DISCONNECTED_BROKEN_CONN, n3] <;>
+      exact ⟨h8, ho.sock, ho.hb, hw⟩
+
+/-- effects `e` of a dispatch followed by `_finalize_message` on what it left behind (`c1`, logged on) -/
+theorem finalized_after (env : Env) (h : Int) (c1 : Conn) (m : Msg) (ho1 : On h c1) (e : List Effect)
+    (he : NoDisc e) (hw : ∀ f ∈ writes e, f.mtype = mHeartbeat) :
+    On h (finalized env c1 m).1 ∧ (finalized env c1 m).1.lastTime = env.now ∧
+    (finalized env c1 m).1.testReqId = c1.testReqId ∧ NoDisc (e ++ (finalized env c1 m).2) ∧
+    (∀ f ∈ writes (e ++ (finalized env c1 m).2), f.mtype = mHeartbeat) ∧
+    ((finalized env c1 m).1.state = c1.state ∨ (finalized env c1 m).1.state = st_ACTIVE) := by
+  obtain ⟨g1, g2, g3, g4, g5, g6⟩ := finalized_on env h c1 m ho1
+  refine ⟨g1, g2, g3, he.append g4, ?_, g6⟩
+  intro f hf
+  rw [writes_append, g5, List.append_nil] at hf
+  exact hw f hf
+
+/-- a benign frame on a connection logged on in the wide sense (ACTIVE, RESENDREQ_AWAITING,
+RESENDREQ_HANDLING, RECV_SEQNUM_TOO_HIGH, …): still logged on (RESENDREQ_AWAITING may become ACTIVE),
+`lastTime = now`, the outstanding id is cleared exactly by an echo, nothing is torn down, and the only
+frame possibly written is the Heartbeat answering an inbound TestRequest. -/
+theorem recv_benign_on (sr : Msg → Bool) (env : Env) (h : Int) (c : Conn) (m : Msg) (ho : On h c)
+    (hb : Benign c m) :
+    On h (recv sr env c m).1 ∧ (recv sr env c m).1.lastTime = env.now ∧
+    (recv sr env c m).1.testReqId = (if echoes c m then none else c.testReqId) ∧
+    NoDisc (recv sr env c m).2 ∧ (∀ f ∈ writes (recv sr env c m).2, f.mtype = mHeartbeat) ∧
+    ((recv sr env c m).1.state = c.state ∨ (recv sr env c m).1.state = st_ACTIVE) := by
+  have h8 := ho.state
+  have hwm := ho.watermark
+  by_cases hm : m.mtype = mHeartbeat
+  · cases ht : c.testReqId with
+    | none =>
+      rw [recv_heartbeat_idle sr env c m h8 hwm hb.inseq hm (Or.inl ht)]
+      have hech : echoes c m = false := by simp [echoes, ht]
+      have := finalized_after env h c m ho [] NoDisc.nil (by simp [writes])
+      simpa [hech, ht] using this
+    | some tid =>
+      cases hv : m.get? tTestReqID with
+      | none =>
+        rw [recv_heartbeat_idle sr env c m h8 hwm hb.inseq hm (Or.inr hv)]
+        have hech : echoes c m = false := by simp [echoes, hv]
+        have := finalized_after env h c m ho [] NoDisc.nil (by simp [writes])
+        simpa [hech, ht] using this
+      | some v =>
+        rw [recv_heartbeat_echo sr env c m tid v h8 hwm hb.inseq hm ht hv (hb.rightId hm tid v ht hv)]
+        have hech : echoes c m = true := by simp [echoes, hm, hv, ht]
+        have ho1 : On h { c with testReqId := none } := ⟨ho.state, ho.sock, ho.hb, ho.watermark⟩
+        have := finalized_after env h _ m ho1 [] NoDisc.nil (by simp [writes])
+        simpa [hech] using this
+  · have hne : (m.mtype == mHeartbeat) = false := by simpa using hm
+    have hech : echoes c m = false := by simp [echoes, hne]
+    rw [hech]
+    by_cases hq : m.mtype = mTestRequest
+    · rw [recv_testrequest sr env c m h8 hwm ho.sock hb.inseq hq]
+      split
+      · exact finalized_after env h c m ho [.caught .encoding] (by simp [NoDisc, isDisc]) (by simp [writes])
+      · split
+        · exact finalized_after env h (burnt c) m ⟨ho.state, ho.sock, ho.hb, ho.watermark⟩
+            [.caught .duplicateSeqNo] (by simp [NoDisc, isDisc]) (by simp [writes])
+        · exact finalized_after env h (sent c _) m ⟨ho.state, ho.sock, ho.hb, ho.watermark⟩
+            [.write (frameOf env c (echoMsg m))] (by simp [NoDisc, isDisc])
+            (by simp [writes, frameOf_mtype, echoMsg, Msg.mk'])
+    · have hq' : (m.mtype == mTestRequest) = false := by simpa using hq
+      rw [recv_app sr env c m h8 hwm hb.inseq ⟨hb.routine, hq', hne⟩]
+      exact finalized_after env h c m ho [.deliver m] (by simp [NoDisc, isDisc]) (by simp [writes])
+
+/-- the same on ACTIVE: stays ACTIVE -/
 theorem recv_benign (sr : Msg → Bool) (env : Env) (h : Int) (c : Conn) (m : Msg) (hu : Up h c)
     (hb : Benign c m) :
     Up h (recv sr env c m).1 ∧ (recv sr env c m).1.lastTime = env.now ∧
     (recv sr env c m).1.testReqId = (if echoes c m then none else c.testReqId) ∧
     NoDisc (recv sr env c m).2 ∧ (∀ f ∈ writes (recv sr env c m).2, f.mtype = mHeartbeat) := by
-  by_cases hm : m.mtype = mHeartbeat
-  · -- Heartbeat
-    cases ht : c.testReqId with
-    | none =>
-      rw [recv_heartbeat_idle sr env c m hu.active hb.inseq hm (Or.inl ht)]
-      obtain ⟨f1, f2, f3, f4, f5, f6, f7⟩ := finalized_ctl env c m
-      refine ⟨⟨f1.trans hu.active, f2.trans hu.sock, f3.trans hu.hb⟩, f5 hu.active, ?_, f6, by simp [f7]⟩
-      simp [f4, ht, echoes]
-    | some tid =>
-      cases hv : m.get? tTestReqID with
-      | none =>
-        rw [recv_heartbeat_idle sr env c m hu.active hb.inseq hm (Or.inr hv)]
-        obtain ⟨f1, f2, f3, f4, f5, f6, f7⟩ := finalized_ctl env c m
-        refine ⟨⟨f1.trans hu.active, f2.trans hu.sock, f3.trans hu.hb⟩, f5 hu.active, ?_, f6, by simp [f7]⟩
-        simp [f4, ht, echoes, hv]
-      | some v =>
-        rw [recv_heartbeat_echo sr env c m tid v hu.active hb.inseq hm ht hv (hb.rightId hm tid v ht hv)]
-        obtain ⟨f1, f2, f3, f4, f5, f6, f7⟩ := finalized_ctl env { c with testReqId := none } m
-        refine ⟨⟨f1.trans hu.active, f2.trans hu.sock, f3.trans hu.hb⟩, f5 hu.active, ?_, f6, by simp [f7]⟩
-        simp [f4, echoes, hm, hv, ht]
-  · have hne : (m.mtype == mHeartbeat) = false := by simpa using hm
-    have hech : echoes c m = false := by simp [echoes, hne]
-    by_cases hq : m.mtype = mTestRequest
-    · -- TestRequest
-      rw [recv_testrequest sr env c m hu.active hu.sock hb.inseq hq, hech]
-      have key : ∀ c1 : Conn, c1.state = c.state → c1.sock = c.sock → c1.hb = c.hb →
-          c1.testReqId = c.testReqId → ∀ e : Effect, isDisc e = false →
-          (∀ f ∈ writes [e], f.mtype = mHeartbeat) →
-          Up h (finalized env c1 m).1 ∧ (finalized env c1 m).1.lastTime = env.now ∧
-          (finalized env c1 m).1.testReqId = (if false = true then none else c.testReqId) ∧
-          NoDisc (e :: (finalized env c1 m).2) ∧
-          (∀ f ∈ writes (e :: (finalized env c1 m).2), f.mtype = mHeartbeat) := by
-        intro c1 g1 g2 g3 g4 e he hw
-        obtain ⟨f1, f2, f3, f4, f5, f6, f7⟩ := finalized_ctl env c1 m
-        refine ⟨⟨(f1.trans g1).trans hu.active, (f2.trans g2).trans hu.sock, (f3.trans g3).trans hu.hb⟩,
-          f5 (g1.trans hu.active),
-          by simp [f4, g4], ?_, ?_⟩
-        · intro x hx
-          rcases List.mem_cons.mp hx with rfl | hx
-          · exact he
-          · exact f6 x hx
-        · have : writes (e :: (finalized env c1 m).2) = writes [e] := by
-            have := writes_append [e] (finalized env c1 m).2
-            simpa [f7] using this
-          rw [this]; exact hw
-      split
-      · exact key c rfl rfl rfl rfl _ rfl (by simp [writes])
-      · split
-        · exact key (burnt c) rfl rfl rfl rfl _ rfl (by simp [writes])
-        · exact key (sent c _) rfl rfl rfl rfl _ rfl (by simp [writes, frameOf_mtype, echoMsg, Msg.mk'])
-    · -- application message
-      have hq' : (m.mtype == mTestRequest) = false := by simpa using hq
-      rw [recv_app sr env c m hu.active hb.inseq ⟨hb.routine, hq', hne⟩, hech]
-      obtain ⟨f1, f2, f3, f4, f5, f6, f7⟩ := finalized_ctl env c m
-      refine ⟨⟨f1.trans hu.active, f2.trans hu.sock, f3.trans hu.hb⟩, f5 hu.active, by simp [f4], ?_, ?_⟩
-      · intro x hx
-        rcases List.mem_cons.mp hx with rfl | hx
-        · rfl
-        · exact f6 x hx
-      · simp [writes, f7]
+  obtain ⟨o1, l1, t1, n1, w1, s1⟩ := recv_benign_on sr env h c m hu.on hb
+  refine ⟨⟨?_, o1.sock, o1.hb⟩, l1, t1, n1, w1⟩
+  rcases s1 with s | s
+  · exact s.trans hu.active
+  · exact s
 
 end AsyncFix.Session.Watchdog
